@@ -175,6 +175,18 @@ def main(argv=None):
                 reasons.append('deciding monitor never evaluated: ' + req)
         if m['cases'] == 0:
             reasons.append('no case was driven')
+        # a monitored call that mostly *refuses* (LinAlgError-type give-ups are accepted case by case) has not been decided: on the
+        # unchanged tree such refusals are rare (0-1 per run); a run in which they outnumber a tenth of the completed calls of that
+        # function (and are more than 5) is inconclusive, never 'held'
+        refused = {}
+        for k, n in m['events'].items():
+            if k.startswith('refused:') and 'NotImplementedError' not in k and not k.startswith('refused:ode.tdvp:IndexError'):
+                api = k.split(':')[1]
+                refused[api] = refused.get(api, 0) + n
+        for api, n in sorted(refused.items()):
+            done = sum(v for kk, v in m['checks'].items() if kk.endswith('|' + api + ':exception'))
+            if n > 5 and n > 0.1 * done:
+                reasons.append('monitored call mostly refused: %s refused %d times, completed %d times' % (api, n, done))
 
     # ---- output
     replay_dir = os.path.join(HERE, 'replays', prop)
